@@ -470,7 +470,17 @@ class TextScenario(Scenario):
         c = self.case
         self.tmp = tempfile.mkdtemp(prefix="c19t")
         self.path = os.path.join(self.tmp, "f.txt")
+        # worlds are file IDENTITIES: ids[0] = 0 is the initial state, every edit switches the path to ids[k+1]
+        self.ids = list(c["ids"]) if "ids" in c else list(range(len(c["edits"]) + 1))
         self.world = 0
+        if c.get("symlink"):
+            # the configured path is a "current release" symlink; every file state is a file of its own that is
+            # never touched again, so switching back to an earlier state restores the identical stat result
+            self.path = os.path.join(self.tmp, "current.txt")
+            for wid in sorted(set(self.ids)):
+                if c["bad"][wid] != 2:
+                    with open(os.path.join(self.tmp, f"state{wid}.txt"), "w") as f:
+                        f.write(text_content(c["contents"][wid], c["bad"][wid]))
         self._write(0)
         self.patch.set(TF, "threading", sched.shim())
         rec = self.rec
@@ -519,6 +529,13 @@ class TextScenario(Scenario):
 
     def _write(self, w):
         c = self.case
+        if c.get("symlink"):
+            tmp_link = self.path + ".new"
+            if os.path.lexists(tmp_link):
+                os.remove(tmp_link)
+            os.symlink(os.path.join(self.tmp, f"state{w}.txt"), tmp_link)      # dangling when the state has no file
+            os.replace(tmp_link, self.path)
+            return
         if c["bad"][w] == 2:
             # the window of a delete-and-recreate replacement: the file does not exist
             if os.path.exists(self.path):
@@ -531,8 +548,11 @@ class TextScenario(Scenario):
         os.replace(tmp, self.path)          # atomic edit: readers see the old or the new file, never a mix
 
     def edit(self, k):
-        self.world += 1
+        self.world = self.ids[k + 1]
         self._write(self.world)
+
+    def env_code(self, k):
+        return -(self.ids[k + 1] + 1)
 
     def nsteps(self, call):
         return 4
@@ -560,7 +580,8 @@ class TextScenario(Scenario):
             _FAIL_FOR.discard(threading.get_ident())
 
     def post_calls(self):
-        last = len(self.case["edits"])
+        ids = self.case["ids"] if "ids" in self.case else list(range(len(self.case["edits"]) + 1))
+        last = ids[-1]
         sys_ids = sorted({s for w in self.case["contents"] for s, _ in w})
         return [[2, last, s] for s in sys_ids[:2]]
 
@@ -829,7 +850,7 @@ def explore_config(job):
     res = []
     deadline = time.time() + budget_s
     for schedule, out in sched.explore(lambda: cls(case), cls.files, cls.funcs, max_preempt=bound,
-                                       max_decisions=3000, deadline=deadline):
+                                       unit_names=("env",), max_decisions=3000, deadline=deadline):
         res.append(([list(p) for p in schedule], out.verdict))
     return res
 
@@ -876,6 +897,15 @@ class C19(Check):
         # file absent during a delete-and-recreate), followed by more operations on the SAME object from the
         # same and from another thread; the failed call's answer is its exception, later calls complete and
         # see the current data
+        # a "current release" symlink switched to a broken state (dangling link / unparsable file) and rolled back
+        # to the untouched earlier release: the stat result after the roll-back is IDENTICAL to the remembered one
+        for badkind in (2, 1):
+            rb = {"comp": "text", "symlink": 1, "contents": [[(1, 10), (2, 20)], []], "bad": [0, badkind],
+                  "ids": [0, 1, 0], "edits": [0, 0], "cache_enabled": 1}
+            out.append((dict(rb, calls=[[[0, 1], [0, 1], [0, 1]]]), b2))
+            out.append((dict(rb, calls=[[[0, 1], [0, 1], [0, 1]], [[1, 20], [0, 2]]]), b2))
+        out.append(({"comp": "text", "symlink": 1, "contents": [[(1, 10)], [(1, 11)]], "bad": [0, 0], "ids": [0, 1, 0],
+                     "edits": [0, 0], "cache_enabled": 1, "calls": [[[0, 1], [0, 1], [0, 1]], [[0, 1]]]}, b2))
         # find_system corners: a value carried by two systems (no unique match), a non-hashable look-up value
         nu = {"comp": "text", "contents": [[(1, 20), (2, 20), (3, 31)], [(1, 20), (3, 31)]], "bad": [0, 0], "edits": [0],
               "cache_enabled": 1}
@@ -968,7 +998,7 @@ class C19(Check):
     def gen(self, tier, rng):
         self.tier = tier
         cfgs = self.configs(tier)
-        budget = 40 if tier == "quick" else 300
+        budget = 30 if tier == "quick" else 300
         jobs = [(c, b, budget) for c, b in cfgs]
         order = sorted(range(len(jobs)), key=lambda i: -jobs[i][1])
         with multiprocessing.get_context("fork").Pool(min(14, common.NPROC)) as pool:
